@@ -462,7 +462,9 @@ def c09(tier, seed):
             runs.append(fb("h_sleep", "mon", "sleep", seed, k, thr, mode="stall", stall_point=sp, stall_every=5, stall_us_lo=4000, stall_us_hi=16000,
                            trials=4 if q else 20, livelock_prop="C09"))
     # every poller delayed (8..30 ms) right after it has consumed ticks from the timer, while many fibers register one- and two-tick sleeps
-    for thr in ((2, 3, 4) if q else (2, 3, 4, 8, 16)):
+    # (since the repair the point lies inside the sleep lock, where a stall only serialises everybody: few threads are enough, and
+    # many of them would turn the ticket lock into a convoy of stalled holders)
+    for thr in ((2, 3, 4) if q else (2, 2, 3, 3, 4, 4)):
         k += 1
         runs.append(fb("h_sleep", "mon", "sleep", seed, k, thr, mode="stall", stall_point="TIMER_READ", stall_every=1, stall_us_lo=8000, stall_us_hi=30000,
                        trials=12 if q else 40, scenario=5, livelock_prop="C09"))
